@@ -1,4 +1,5 @@
 import Hostd.Props.C01
+import Hostd.Props.C01G
 /-!
 C06, consequence clause — "a contract whose data the host holds ends successful, never failed, for
 every reorg history that keeps its formation on the best chain".
@@ -233,15 +234,84 @@ theorem C06_failed_only_if_missed_on_best_chain {c0 : Contract} (rb : Nat) (hf :
 
 /-! ### non-vacuity: a history that fails the contract on one branch and proves it on the other -/
 
-def exC0 : Contract := { id := 1, ver := .v2, wStart := 10, wEnd := 20 }
-def exOps : List HOp :=
+def exEndC0 : Contract := { id := 1, ver := .v2, wStart := 10, wEnd := 20 }
+def exEndOps : List HOp :=
   [.apply 5 [.form 0], .apply 20 [.fail], .revert 20 [.fail], .apply 12 [.revise 3, .succ]]
-def exOpsOpen : List HOp := [.apply 5 [.form 0], .apply 20 [.fail], .revert 20 [.fail]]
+def exEndOpsOpen : List HOp := [.apply 5 [.form 0], .apply 20 [.fail], .revert 20 [.fail]]
 
-example : Fresh exC0 := by simp [Fresh, exC0]
-example : WFops exC0 [] exOps := wfOpsB_sound [] exOps (by decide)
-example : onChain (· == .succ) (finalStk [] exOps) = true := by decide
-example : WFops exC0 [] exOpsOpen := wfOpsB_sound [] exOpsOpen (by decide)
-example : specStatus (finalStk [] exOpsOpen) = .active := by decide
+example : Fresh exEndC0 := by simp [Fresh, exEndC0]
+example : WFops exEndC0 [] exEndOps := wfOpsB_sound [] exEndOps (by decide)
+example : onChain (· == .succ) (finalStk [] exEndOps) = true := by decide
+example : WFops exEndC0 [] exEndOpsOpen := wfOpsB_sound [] exEndOpsOpen (by decide)
+example : specStatus (finalStk [] exEndOpsOpen) = .active := by decide
+
+end Hostd.Chain
+
+/-! ### the store as a whole: the hypothesis of `C06_actions_exact` holds after every history -/
+namespace Hostd.Chain
+
+/-- the invariant of the totality proof of C01 holds in the state a well-formed history ends in -/
+theorem TInv_run (rb : Nat) (s0 : State) (hfresh : ∀ v i c0, findC v i s0.cs = some c0 → Fresh c0) :
+    ∀ (ops : List GOp) (stk : List (Nat × Changes)) (s : State), TInv s0 stk s → WFG s0 stk ops →
+      ∃ s' stk', runG rb s ops = .ok s' ∧ TInv s0 stk' s' := by
+  intro ops
+  induction ops with
+  | nil => intro stk s hinv _; exact ⟨s, stk, rfl, hinv⟩
+  | cons op rest ih =>
+    intro stk s hinv hw
+    obtain ⟨hop, hrest⟩ := hw
+    obtain ⟨s1, hs1, hinv1⟩ := TInv_step hfresh rb hinv hop
+    obtain ⟨s', stk', hs', hinv'⟩ := ih (nextG stk op) s1 hinv1 hrest
+    exact ⟨s', stk', by simp [runG, bind, Except.bind, hs1, hs'], hinv'⟩
+
+/-- **Every row of the store satisfies the row invariant after every well-formed history** — the
+hypothesis `hall` of `C06_actions_exact` is not an assumption about the store but a consequence of how
+the store processes blocks. -/
+theorem C06_rows_after_any_history (rb : Nat) (s0 : State) (hk : KeysNodup s0.cs) (hm : MInv s0)
+    (hfresh : ∀ v i c0, findC v i s0.cs = some c0 → Fresh c0) (ops : List GOp) (hwf : WFG s0 [] ops) :
+    ∃ s', runG rb s0 ops = .ok s' ∧ ∀ c ∈ s'.cs, RowInv c := by
+  have h0 : TInv s0 [] s0 := ⟨hk, hm, rfl, by simp, fun v i c0 hfind => ⟨trivial, c0, c0, hfind, rfl, rfl⟩⟩
+  obtain ⟨s', stk', hrun, hinv⟩ := TInv_run rb s0 hfresh ops [] s0 h0 hwf
+  refine ⟨s', hrun, ?_⟩
+  intro c hc
+  have hfc : findC c.ver c.id s'.cs = some c := findC_of_mem hinv.keys hc
+  obtain ⟨c0, hc0⟩ := findC_of_keys hinv.same hfc
+  obtain ⟨hw, c2, X, hfc2, hX, hn⟩ := hinv.rows c.ver c.id c0 hc0
+  rw [hfc] at hfc2; cases hfc2
+  obtain ⟨X', hX', hg⟩ := specTop_good (hfresh _ _ _ hc0) _ hw
+  rw [hX] at hX'; cases hX'
+  refine C01_rowInv hn hg ?_
+  intro hrej
+  have h1 : c.confirmed = X.confirmed := by simpa [norm] using congrArg Contract.confirmed hn
+  have h2 : clsOf c.status = clsOf X.status := by simpa [norm] using congrArg Contract.status hn
+  rw [hrej] at h2
+  have hp : X.status = .pending := by
+    cases hx : X.status <;> simp [hx, clsOf] at h2
+    · rfl
+    · exact absurd hx hg.not_rejected
+  rw [h1]
+  exact (hg.pend hp).1
+
+/-- C06 for the store after any history: the selections at the tip are exactly the named sets -/
+theorem C06_actions_exact_after_any_history (rb : Nat) (s0 : State) (hk : KeysNodup s0.cs) (hm : MInv s0)
+    (hfresh : ∀ v i c0, findC v i s0.cs = some c0 → Fresh c0) (ops : List GOp) (hwf : WFG s0 [] ops) (h buf id : Nat) :
+    ∃ s', runG rb s0 ops = .ok s' ∧
+      (id ∈ selIds selRebroadcast1 s'.cs ↔ ∃ c ∈ s'.cs, c.id = id ∧ c.ver = .v1 ∧ c.status = .pending) ∧
+      (id ∈ selIds selRebroadcast2 s'.cs ↔ ∃ c ∈ s'.cs, c.id = id ∧ c.ver = .v2 ∧ c.status = .pending) ∧
+      (id ∈ selIds (selRevision2 h buf) s'.cs ↔ ∃ c ∈ s'.cs, c.id = id ∧ c.ver = .v2 ∧ c.status = .active ∧ revisionPending c ∧ h ≤ c.wStart ∧ c.wStart ≤ h + buf) ∧
+      (id ∈ selIds (selProof2 h) s'.cs ↔ ∃ c ∈ s'.cs, c.id = id ∧ c.ver = .v2 ∧ c.status = .active ∧ c.wStart ≤ h ∧ h < c.wEnd) ∧
+      (id ∈ selIds (selExpire2 h) s'.cs ↔ ∃ c ∈ s'.cs, c.id = id ∧ c.ver = .v2 ∧ c.status = .active ∧ c.wEnd ≤ h) := by
+  obtain ⟨s', hrun, hall⟩ := C06_rows_after_any_history rb s0 hk hm hfresh ops hwf
+  refine ⟨s', hrun, ?_, ?_, ?_, ?_, ?_⟩ <;> rw [selIds_exact] <;> constructor <;> rintro ⟨c, hc, h1, h2⟩
+  · exact ⟨c, hc, h2, (rebroadcast1_exact c (hall c hc)).mp h1⟩
+  · exact ⟨c, hc, (rebroadcast1_exact c (hall c hc)).mpr h2, h1⟩
+  · exact ⟨c, hc, h2, (rebroadcast2_exact c (hall c hc)).mp h1⟩
+  · exact ⟨c, hc, (rebroadcast2_exact c (hall c hc)).mpr h2, h1⟩
+  · exact ⟨c, hc, h2, (revision2_exact c h buf (hall c hc)).mp h1⟩
+  · exact ⟨c, hc, (revision2_exact c h buf (hall c hc)).mpr h2, h1⟩
+  · exact ⟨c, hc, h2, (proof2_exact c h (hall c hc)).mp h1⟩
+  · exact ⟨c, hc, (proof2_exact c h (hall c hc)).mpr h2, h1⟩
+  · exact ⟨c, hc, h2, (expire2_exact c h (hall c hc)).mp h1⟩
+  · exact ⟨c, hc, (expire2_exact c h (hall c hc)).mpr h2, h1⟩
 
 end Hostd.Chain
